@@ -1,6 +1,7 @@
 package eval
 
 import (
+	"fmt"
 	"ti/base"
 	"ti/context"
 	"ti/eval/method_evaluator"
@@ -27,6 +28,13 @@ func (e *Evaluator) handleEvaluateMethod(
 			methodT,
 			isAmpersand,
 		)
+
+	// `recv.` at the end of a line: the newline is not a method name
+	if methodT.IsNewLineIdentifier() {
+		p.Unget()
+
+		return fmt.Errorf("syntax error, method name expected after '.'")
+	}
 
 	return methodEvaluator.Evaluation()
 }
